@@ -734,6 +734,34 @@ def _make_rng(facts):
     return rng
 
 
+def exit_free_cycle(b, h, body):
+    """Is there a path from the loop head back to the head, inside the loop, that passes no block from which the loop
+    can be left (a branch with a successor outside the loop, or a return)?  Such a trip cannot end the loop whatever the
+    state is: `for`/`while` loops never have one (the head itself is an exit test), a `loop { .. }` whose `continue`
+    skips the exit test does.  Unwind edges do not count as exits.  -> a witness block on the cycle, or None"""
+    def is_exit(x):
+        t = b.blocks[x].term
+        if t.kind == "ret":
+            return True
+        return any(s not in body and not b.blocks[s].cleanup for s in t.targets)
+    exits = {x for x in body if is_exit(x)}
+    if h in exits:
+        return None
+    seen = set()
+    st = [(s, s) for s in b.blocks[h].term.targets if s in body and s not in exits]
+    while st:
+        x, first = st.pop()
+        if x == h:
+            return first
+        if x in seen:
+            continue
+        seen.add(x)
+        for s in b.blocks[x].term.targets:
+            if s in body and s not in exits:
+                st.append((s, first))
+    return None
+
+
 def collect_loops(facts, crates, skip_file_re=None):
     """-> (sites, n_functions): one census 'site' per natural loop"""
     out = []
@@ -758,4 +786,10 @@ def collect_loops(facts, crates, skip_file_re=None):
                 out.append(dict(kind="loop:" + cls, body=b, bb=h, line=line or b.lo, ok=paced,
                                 why=(detail if paced else f"no recognised pacing ({cls}: {detail})"),
                                 key=(b.path, "loop", h), iv=None, loop_class=cls))
+                w = exit_free_cycle(b, h, body)
+                out.append(dict(kind="loop:exit-free-trip", body=b, bb=h, line=line or b.lo, ok=w is None,
+                                why=("every trip through the loop passes a block from which the loop can be left" if w is None else
+                                     "a path from the loop head back to the head passes no exit test (a `continue` that skips the "
+                                     "loop's exit condition): if the state keeps selecting that path the loop never ends"),
+                                key=(b.path, "loop-exit", h), iv=None, loop_class="exit-free-trip"))
     return out, nfn
